@@ -349,7 +349,7 @@ func (g *Generator) generateBindingFile(file *protogen.File) error {
 	gf.P("Violations: []*sebufhttp.FieldViolation{")
 	gf.P("{")
 	gf.P(`Field: "body",`)
-	gf.P(`Description: fmt.Sprintf("failed to parse request body: %v", err),`)
+	gf.P(`Description: strings.ToValidUTF8(fmt.Sprintf("failed to parse request body: %v", err), "\uFFFD"),`)
 	gf.P("},")
 	gf.P("},")
 	gf.P("}")
